@@ -245,16 +245,18 @@ class ScriptedDul(D.RecordingDul):
 
 
 def bare_requester(ae, max_len, remote, replies):
-    r = asceprovider.AssociationRequester.__new__(asceprovider.AssociationRequester)
-    r.ae = ae
-    r.dul = ScriptedDul(replies)
-    r.dul.max_pdu_length = max_len
-    r.association_established = False
-    r.max_pdu_length = max_len
-    r.accepted_contexts = {}
-    r.context_def_list = ae.copy_context_def_list()
-    r.remote_ae = remote
-    r.sop_classes_as_scu = {}
+    """A REAL AssociationRequester (its own constructor runs: per-association state is whatever the library sets up)
+    whose provider is the scripted one."""
+    import types
+    fac = _DulFactory(replies)
+    saved = asceprovider.dulprovider
+    asceprovider.dulprovider = types.SimpleNamespace(DULServiceProvider=fac)
+    try:
+        r = asceprovider.AssociationRequester(ae, max_len, remote)
+    finally:
+        asceprovider.dulprovider = saved
+    if not fac.made:
+        raise Machinery('seam broken: AssociationRequester did not create its provider through dulprovider.DULServiceProvider')
     return r
 
 
